@@ -42,6 +42,7 @@ type faultReader struct {
 	chunks   []int // cyclic; empty = as much as asked
 	ci       int
 	failAt   int  // inject errInjected once this many bytes were delivered (-1: never)
+	failWith error // the error to inject (errInjected when nil)
 	eofWithN bool // deliver the final bytes together with io.EOF
 	pos      int
 	// zeroAt > 0: when exactly this many bytes were delivered, one read returns (0, nil) — legal for an
@@ -61,6 +62,9 @@ func (r *faultReader) Read(p []byte) (int, error) {
 	}
 	if r.pos >= limit {
 		if r.failAt >= 0 && r.pos >= r.failAt {
+			if r.failWith != nil {
+				return 0, r.failWith
+			}
 			return 0, errInjected
 		}
 		return 0, io.EOF
@@ -196,6 +200,11 @@ func c06Check(c C06Case, rec *evid.Rec) error {
 	for k := 0; k <= len(block); k++ {
 		k := k
 		faults = append(faults, c06Fault{class: "readerror", rdErr: true, served: block[:k], rd: func() io.Reader { return &faultReader{data: block, failAt: k} }})
+		// the error values readers of truncated / framed / cancelled streams really return
+		for _, e := range []error{io.ErrUnexpectedEOF, io.ErrNoProgress, io.ErrClosedPipe, context.Canceled} {
+			e := e
+			faults = append(faults, c06Fault{class: "readerror", rdErr: true, served: block[:k], rd: func() io.Reader { return &faultReader{data: block, failAt: k, failWith: e} }})
+		}
 		if k > 0 && k%3 == 0 {
 			faults = append(faults, c06Fault{class: "readerror", rdErr: true, served: block[:k], rd: func() io.Reader { return &faultReader{data: block, failAt: k, chunks: []int{1, 2}} }})
 		}
@@ -384,7 +393,7 @@ func drawSmallCodecValue(t *rapid.T, codec uint64, label string) val.V {
 
 var c06Part = evid.Part[C06Case]{
 	Prop: "C06", Name: "loadfaults", Quick: 320, Thorough: 80000,
-	Rule: "per drawn block (small value × 5 codecs × 10 hash functions incl. identity and 1-2 byte truncated digests; blocks ≤160 B): EVERY single-bit flip, EVERY truncation length, extensions (1 byte, whitespace, duplicate item, random tail; also delivered in chunks ending at the old end, byte-wise, and with a (0, nil) read at the old end), a (0, nil) read after EVERY offset of the correct block, substitution by another block / empty block, a read error after EVERY offset, EVERY fixed chunk size with and without (n>0, EOF), a random chunking, an open error — each against Load, LoadRaw, LoadPlusRaw and Fill, and against Load / Fill with a prototype of another kind than the block's root (the wrong-kind error must not take precedence over a hash mismatch); evaluations counts every (fault, loader) execution; distinct_nontrivial counts (block, fault class, loader) triples, each class being enumerated completely for its block",
+	Rule: "per drawn block (small value × 5 codecs × 10 hash functions incl. identity and 1-2 byte truncated digests; blocks ≤160 B): EVERY single-bit flip, EVERY truncation length, extensions (1 byte, whitespace, duplicate item, random tail; also delivered in chunks ending at the old end, byte-wise, and with a (0, nil) read at the old end), a (0, nil) read after EVERY offset of the correct block, substitution by another block / empty block, a read error after EVERY offset (an opaque error, io.ErrUnexpectedEOF, io.ErrNoProgress, io.ErrClosedPipe, context.Canceled), EVERY fixed chunk size with and without (n>0, EOF), a random chunking, an open error — each against Load, LoadRaw, LoadPlusRaw and Fill, and against Load / Fill with a prototype of another kind than the block's root (the wrong-kind error must not take precedence over a hash mismatch); evaluations counts every (fault, loader) execution; distinct_nontrivial counts (block, fault class, loader) triples, each class being enumerated completely for its block",
 	Gen: func(t *rapid.T) C06Case {
 		lp := drawC06LP(t)
 		return C06Case{LP: lp, V: drawSmallCodecValue(t, lp.Codec, "v"), Other: drawSmallCodecValue(t, lp.Codec, "other"),
